@@ -262,6 +262,9 @@ def translate(src) -> dict:
     text += "Definition reducer_dispatch : list reduce_rule := [RTensorCSR; RTensorCSC; RTensorTorch; RStorageTorch; ROwnReduction].\n"
     text += "Definition run_pipeline_steps : list rp_step := [RPQueryFromUserId; RPItemsIfTestItems; RPExtraOverride; RPRunAll; RPCopyOutputs].\n"
     text += "Definition batch_loop_shape : batch_loop := AddEachOutputUnderItsKey.\n"
+    text += "Definition helper_recommend : helper_setup := HSRecommendN.\n"     # the three `expect`s on batch/__init__.py above fail closed otherwise
+    text += "Definition helper_score : helper_setup := HSScore.\n"
+    text += "Definition helper_predict : helper_setup := HSPredict.\n"
     text += "Definition pool_shutdown : list shutdown_step := [ShutPool; ShutManager].\n"
     text += f"Definition worker_init_steps : list init_step := [{'; '.join(init_steps)}].\n"
     return {"Gen/C12_shape.v": text}
